@@ -8,6 +8,7 @@ use std::time::{Duration, Instant};
 mod eval;
 mod relations;
 mod builders;
+mod paths;
 mod rng;
 mod t_time_locks;
 mod t_tree_hash;
@@ -77,6 +78,7 @@ fn main() {
                     "sig_paths_ground" => eval::replay_sig_paths(&v["input"]),
                     "relations_ground" => relations::replay_relations(&v["input"]),
                     "builders_ground" => builders::replay_builders(&v["input"]),
+                    "paths_ground" => paths::replay_paths(&v["input"]),
                     "bls_cache_ground" => eval::replay_bls(&v["input"]),
                     "tree_hash_precomputed" => eval::replay_precomputed(&v["input"]),
                     _ => (false, "unknown eval replay".to_string()),
